@@ -25,6 +25,10 @@ CLAIMED["C11"] = dict(level="exploration", ref="DESIGN.md section 4 C11",
    text="Seeded operation histories over the whole public Vector API (creation with 1-3 fixed dims, cell/slice/fancy get and set incl. partial indices and Vector-valued sources, field arithmetic, flatten/set_flattened, add/remove fields, copy, metadata, a second independent vector, rejected operations) stepped against a reference model; every public read of every live vector is compared after every operation, structural invariants are asserted, and copy/independence is checked by mutating one object and diffing the other.",
    note="Trusts the reference model in qsim/props/c11.py. Caller-side aliasing of cell arrays and the documented view semantics of slices are excluded (assumptions in evidence). Rejected multi-cell assignments are checked for invariants, not atomicity (the property states invariants).",
    technique="deterministic history simulation: seeded operation sequences incl. rejected operations stepped against an executable reference model, ddmin-minimised replays")
+CLAIMED["C03"] = dict(level="exploration", ref="DESIGN.md section 4 C03",
+   text="Seeded operation histories (depth <= 12, coverage-steered over all ordered pairs (quick) / triples (thorough) of the 12 operation kinds) over Dataset and its 2d/3d/4d/4dstem subclasses: construction, copy, setters (valid and rejected), pad/crop/bin/fourier_resample executed both as copying variant on the working dataset and as in-place variant on a copy (results compared, source compared with its snapshot), indexing with NumPy itself as the specification, re-binding to results so dimensionality changes flow on; invariants (calibration lengths, class vs dimensionality, registry) after every step.",
+   note="Trusts NumPy indexing as the specification and the snapshot/differential oracles in qsim/props/c03.py. Index expressions that make NumPy move the broadcast axis (list separated from an integer by a slice) and empty axes are not generated (assumptions in evidence). Numerical correctness of the four operations is C06 and not claimed.",
+   technique="deterministic history simulation: seeded, coverage-steered operation sequences incl. rejected operations; NumPy-as-specification and in-place-vs-copy differential oracles; ddmin-minimised replays")
 NA = {
  "C02": "single evaluation of a deterministic forward model at a known ground truth; no schedule, state, fault or persistence in the claim - a simulator would only be an input generator",
  "C06": "conservation laws of bin/fourier_resample/pad/crop as pure array->array maps (the operation-history aspect of the same methods is claimed under C03)",
@@ -37,7 +41,7 @@ NA = {
  "C17": "unwrapping is a deterministic function of field and mask; its merge order is fixed by the input, not by a scheduler",
  "C20": "range/monotonicity/inverse identities of stateless maps",
 }
-PENDING = {k: "claimed in DESIGN.md (section 4); its check is still under construction in this build session and therefore not yet registered" for k in ["C03","C04","C05","C09","C18"]}
+PENDING = {k: "claimed in DESIGN.md (section 4); its check is still under construction in this build session and therefore not yet registered" for k in ["C04","C05","C09","C18"]}
 
 def main():
     checks = []
